@@ -60,8 +60,8 @@ where
 
     ensure!(initial_population_size <= max_population_size, "it is not possible to select more individuals with MuPlusLambda selection than are present");
     ensure!(
-        !(initial_deviation..final_deviation).is_empty(),
-        "the std_dev range must not be empty for this operator"
+        final_deviation <= initial_deviation,
+        "the final deviation must not be larger than the initial deviation"
     );
 
     Ok(Configuration::builder()
